@@ -68,8 +68,8 @@ LEVEL_NOTE = (
     "instants (ties are excluded from the corpus or tolerated, see docs/notes/C16.md), file back-end taking zero virtual time, "
     "real-time promptness; throttle waits are fed to the model as observed (arming instants of the control readline, start "
     "instants of the timed data reads), not predicted (C15 is about their length). F16 (0 treated as 'unset' by "
-    "StreamIO.__init__) is repaired, its recorded replay is an ordinary corpus case. Known finding F20: a Throttle.wait helper "
-    "task outlives a session released during a throttle pause (clean-up clause)."
+    "StreamIO.__init__) is repaired, its recorded replay is an ordinary corpus case. F21 (a Throttle.wait helper task outlived a session released during a "
+    "throttle pause) is repaired too; the throttled groups that found it are ordinary corpus cases."
 )
 TRUSTED = [
     "asyncio.wait_for(aw, T) raises TimeoutError at exactly start + T on the loop clock (T <= 0: at once, T None: never); "
